@@ -86,10 +86,11 @@ def inert_element(rng, spec):
         a = {'type': 'Plant', 'name': name, 'nodes': [gen.pick(rng, nodes)], 'price': sorted(spec['prices'])[0], 'min_cap': 1. * f, 'max_cap': 5. * f, 'start_costs': 3.,
              'start': s, 'end': e}
     elif kind == 'scaled':
+        # a scaled asset whose own lifetime lies outside the horizon (the base with the same window, or without one of its own)
+        own = rng.random() < 0.5
         a = {'type': 'ScaledAsset', 'name': name, 'base': {'type': 'SimpleContract', 'name': 'inert_base', 'nodes': [gen.pick(rng, nodes)], 'price': sorted(spec['prices'])[0],
-             'min_cap': 1. * f, 'max_cap': 5. * f, 'start': s, 'end': e}, 'max_scale': 2., 'fix_costs': 1., 'start': s, 'end': e}
-        if place == 'empty' or True:
-            a = None     # a scaled asset always contributes its scale variable and fixed costs over its own window: not inert by construction
+             'min_cap': gen.pick(rng, [1., -2.]) * f, 'max_cap': 5. * f, 'start': s if own else None, 'end': e if own else None},
+             'min_scale': gen.pick(rng, [0., 1.]), 'max_scale': 2., 'fix_costs': gen.pick(rng, [1., 0.]), 'start': s, 'end': e}
     elif kind == 'orderbook':
         ob = gen.gen_orderbook(rng, g, name, gen.pick(rng, nodes), n_orders=int(rng.integers(1, 5)))
         ck = Clock(g)
@@ -163,17 +164,23 @@ def check_windows(case, spec, r, ck):
         rows = m[(m['asset'] == a['name'])]
         steps = set(int(t) for t in rows['time_step'].values) if len(rows) else set()
         if a['type'] == 'ScaledAsset':
+            # the wrapper is an asset: dispatched only inside its own window (and the base only inside its own); the fix costs of the scale variable
+            # accrue over the wrapper's window clipped to the horizon
             steps = set(int(t) for t in rows[rows['type'] == 'd']['time_step'].values)
-            Wb = set(ck.window(a['base'].get('start'), a['base'].get('end')))
-            W = W & Wb if (a.get('start') or a.get('end')) else Wb
-            continue
+            Wown = set(W)
+            W = W & set(ck.window(a['base'].get('start'), a['base'].get('end')))
+            sz = rows[rows['type'] == 'size']
+            if len(sz) == 1 and not a.get('wacc'):
+                got = float(r.op.c[int(sz.index[0])]); want = float(a.get('fix_costs', 0.)) * float(ck.dt[sorted(Wown)].sum())
+                case.check('window.scaled_fix_costs_over_own_window', abs(got - want) <= 1e-9 * (1 + abs(want)), nonvacuous=bool(a.get('fix_costs')) and len(Wown) < ck.T,
+                           asset=a['name'], cost_of_scale_variable=got, fix_costs_times_covered_time=want, start=a.get('start'), end=a.get('end'))
         windowed = a.get('start') is not None or a.get('end') is not None
         case.check('window.mapping_rows_inside', steps <= W, nonvacuous=windowed, asset=a['name'], cls=a['type'], outside=sorted(steps - W)[:6],
                    start=a.get('start'), end=a.get('end'))
         if r.solved and r.out is not None:
             disp = r.out['dispatch']
             nz = set()
-            for n in a['nodes']:
+            for n in (a.get('nodes') or a.get('base', {}).get('nodes') or []):
                 col = a['name'] if len(r.built.portfolio.nodes) == 1 else '%s (%s)' % (a['name'], n)
                 if col in disp.columns:
                     v = disp[col].values.astype(float)
@@ -219,7 +226,7 @@ def check_takes(case, spec, r, ck):
 
 
 def run_case(rng, tier, case):
-    base = gen.gen_mixed_portfolio(rng, kinds=('contract', 'contract', 'transport', 'storage', 'multi', 'orderbook', 'coarse', 'plant', 'storage_blocks'),
+    base = gen.gen_mixed_portfolio(rng, kinds=('contract', 'contract', 'transport', 'storage', 'multi', 'orderbook', 'coarse', 'plant', 'storage_blocks', 'scaled'),
                                    grid_kw={'steps': (5, 26)}, n_assets=(2, 5), n_nodes=(1, 3))
     spec = gen.strip_private(base)
     if rng.random() < 0.3:
@@ -278,9 +285,9 @@ def run_case(rng, tier, case):
         gs = ck.points[0]; ge = ck.ts(spec['grid']['end'])
         clip = copy.deepcopy(spec); changed = []
         def clip_asset(a):
-            if a.get('start') is not None and ck.ts(a['start']) < gs and not a.get('freq') and a['type'] not in ('ScaledAsset',):
+            if a.get('start') is not None and ck.ts(a['start']) < gs and not a.get('freq'):
                 a['start'] = None; changed.append(a['name'] + '.start')
-            if a.get('end') is not None and ck.ts(a['end']) > ge and a['type'] not in ('ScaledAsset',):
+            if a.get('end') is not None and ck.ts(a['end']) > ge:
                 a['end'] = spec['grid']['end']; changed.append(a['name'] + '.end')
         for a in clip['assets']:
             if a['type'] in ('StructuredAsset', 'LinkedAsset', 'OrderBook'):
